@@ -292,7 +292,7 @@ def check_interactive(ctx, spec, g, deps, ids, case):
         idlist = [n["id"] for n in nodes]
         dup = {x for x in idlist if idlist.count(x) > 1}
         if dup:
-            ctx.violation("C20:node-listed-twice", f"state {key}: node ids listed twice: {sorted(dup)[:4]}", c2)
+            ctx.violation("C20:node-listed-twice" + (":name-derived-ids-collide" if dup <= glued_id_collisions(spec, ids) else ""), f"state {key}: node ids listed twice: {sorted(dup)[:4]}", c2)
         nset = set(idlist)
         hidden = {n["id"] for n in nodes if n.get("hidden")}
         for e in edges:
@@ -480,7 +480,7 @@ def check_mermaid(ctx, spec, g, deps, ids, case, max_depth):
             twice = sorted(k for k, v in declared.counts.items() if v > 1)
             ctx.obs["mermaid_declarations_counted"] += len(declared.counts)
             if twice:
-                ctx.violation("C20:mermaid-node-declared-twice", f"depth {d} (separate_outputs={sep}): declared more than once in the Mermaid source: {twice[:6]}", c2)
+                ctx.violation("C20:mermaid-node-declared-twice" + (":name-derived-ids-collide" if set(twice) <= glued_id_collisions(spec, ids) else ""), f"depth {d} (separate_outputs={sep}): declared more than once in the Mermaid source: {twice[:6]}", c2)
             for a, b, _ in edges:
                 for end in (a, b):
                     if end not in declared:
@@ -504,7 +504,7 @@ def check_mermaid(ctx, spec, g, deps, ids, case, max_depth):
                     nm = a[len("input_"):]
                     if not any(e == nm and rev[b] in ancestors_or_self(c) for e, c in ideps):
                         inner_same = any(nm in (fp, e_) for i2, (n2, _) in ids.items() if i2 == rev[b] or i2.startswith(rev[b] + "/") for fp, e_ in ref.node_inputs(n2))
-                        ctx.violation("C20:mermaid-spurious-input-edge" + (":inner-name-equals-unrelated-outer-input" if inner_same else ""), f"Mermaid depth {d}: edge from input {nm!r} to {rev[b]}, which does not consume that input", c2)
+                        ctx.violation("C20:mermaid-spurious-input-edge" + (":name-derived-ids-collide" if b in glued_id_collisions(spec, ids) else ":inner-name-equals-unrelated-outer-input" if inner_same else ""), f"Mermaid depth {d}: edge from input {nm!r} to {rev[b]}, which does not consume that input", c2)
             # through DATA nodes in separate mode: producer -> data -> consumer
             succ = {}
             for a, b in drawn:
@@ -594,6 +594,29 @@ def same_graph_twice(rng):
     return inner
 
 
+def glued_id_collisions(spec, ids):
+    """Diagram ids that two DIFFERENT things receive when ids are glued together from names (classifier of the known
+    finding): input ids `input_<name>` / `input_group_<names joined by _>` over the top-level input names, and the
+    Mermaid ids of nodes (hierarchical id with '/' replaced by '__')."""
+    import itertools
+
+    out = set()
+    names = sorted({e for e, _ in input_deps_of(spec)})
+    seen = {}
+    for n in names:
+        seen.setdefault(f"input_{n}", set()).add((n,))
+    for k in range(2, min(4, len(names)) + 1):
+        for sub in itertools.combinations(names, k):
+            for perm in (sub, tuple(reversed(sub))):
+                seen.setdefault("input_group_" + "_".join(perm), set()).add(tuple(sorted(sub)))
+    out |= {i for i, who in seen.items() if len(who) > 1}
+    mids = {}
+    for i in ids:
+        mids.setdefault(i.replace("/", "__"), set()).add(i)
+    out |= {m for m, who in mids.items() if len(who) > 1}
+    return out
+
+
 def shadowed_substring_specs():
     """Directed shapes: one container keeps a PRIVATE value (hidden from the parent by its selection) whose name another
     container exposes as a real output - next to a second exposed output whose name merely contains / extends that name
@@ -617,6 +640,20 @@ def shadowed_substring_specs():
             ], "bind": {}}
             out.append(outer)
     return out
+
+
+def colliding_id_specs():
+    """Directed shapes whose DIFFERENT nodes get one diagram id when ids are glued together from names: two input groups
+    {a_b, c} / {a, b_c}; a single input called group_a_b next to the group {a, b}; a nested node mid/deep next to a root
+    node called mid__deep (Mermaid replaces '/' by '__')."""
+    def fn(name, params, out):
+        return {"k": "fn", "name": name, "params": [{"n": p} for p in params], "outs": [out]}
+
+    return [
+        {"name": "ids1", "nodes": [fn("f", ["a_b", "c"], "o1"), fn("g", ["a", "b_c"], "o2")], "bind": {}},
+        {"name": "ids2", "nodes": [fn("f", ["group_a_b"], "o1"), fn("g", ["a", "b"], "o2")], "bind": {}},
+        {"name": "ids3", "nodes": [{"k": "sub", "name": "mid", "prog": {"name": "mid", "nodes": [fn("deep", ["q"], "x1")], "bind": {}}}, fn("mid__deep", ["z"], "x2")], "bind": {}},
+    ]
 
 
 def run(ctx):
@@ -651,7 +688,7 @@ def run(ctx):
         if (f"{inst}/clean", f"{inst}/tokenize") not in set(flat.edges()):
             ctx.violation("C20:flat-inner-edge-missing", f"the same Graph nested twice: instance {inst} lacks its inner edge clean -> tokenize in to_flat_graph()", {"program": "same graph nested twice"})
     ctx.case({"directed": "same-graph-twice"}, True)
-    directed = shadowed_substring_specs() if ctx.shard[0] == 0 else []
+    directed = (shadowed_substring_specs() + colliding_id_specs()) if ctx.shard[0] == 0 else []
     for i in range(n + len(directed)):
         spec = directed[i - n] if i >= n else gen_viz_graph(ctx.rng)
         rt.reset_program()
